@@ -108,7 +108,13 @@ func (attr *Attribute) UnmarshalJSON(data []byte) error {
 		attr.Type = NotaryAssistedT
 		attr.Value = new(NotaryAssisted)
 	default:
-		return errors.New("wrong Type")
+		// Reserved attributes have no name, String() gives AttrType(N) for them.
+		var t uint8
+		if _, err := fmt.Sscanf(aj.Type, "AttrType(%d)", &t); err != nil || t < ReservedLowerBound {
+			return errors.New("wrong Type")
+		}
+		attr.Type = AttrType(t)
+		attr.Value = new(Reserved)
 	}
 	return json.Unmarshal(data, attr.Value)
 }
